@@ -371,6 +371,9 @@ class SimSocket:
         if node is None or node.health == "refuse":
             w.health_fault(self, "refuse")
             raise ConnectionRefusedError(errno.ECONNREFUSED, "sim: connection refused")
+        if node.health == "unreach":
+            w.health_fault(self, "unreach")
+            raise OSError(errno.EHOSTUNREACH, "sim: no route to host")
         if node.health == "connect_timeout":
             w.health_fault(self, "connect_timeout")
             w.clock.advance(self.timeout or 0)
@@ -425,6 +428,8 @@ class SimSocket:
             if kind == "timeout":
                 w.clock.advance(self.timeout or 0)
                 raise _real_socket.timeout("sim: send timed out")
+            if kind == "eintr":
+                raise OSError(errno.EINTR, "sim: interrupted system call")
             conn.broken = True
             _raise_fault(w, f, "pipe" if kind == "pipe" else "reset")
         h = node.health
@@ -433,6 +438,10 @@ class SimSocket:
             w.health_fault(self, h)
             conn.broken = True
             raise ConnectionResetError(errno.ECONNRESET, "sim: connection reset by peer")
+        if h == "unreach":
+            w.health_fault(self, h)
+            conn.broken = True
+            raise OSError(errno.EHOSTUNREACH, "sim: no route to host")
         ctx.sent += len(data)
         if h == "eof":
             w.health_fault(self, "eof")
